@@ -171,7 +171,33 @@ def run_obs(case):
     prog = {"bar": 0, "every": 1, "never": 10**9}[case["prog"]]
     outp = "out.h5" if case["out"] == "file" else None
     opts, kw = _physics(case["phys"], k, outp, prog)
-    sol = tdgl.solve(_device(case["phys"], case["probes"]), opts, **kw)
+    dev_in = _device(case["phys"], case["probes"])
+    # running a simulation must not change what it was given
+    before = dict(
+        film=dev_in.film.points.copy(), terms=[t.points.copy() for t in dev_in.terminals], holes=[h.points.copy() for h in dev_in.holes],
+        probes=None if dev_in.probe_points is None else np.array(dev_in.probe_points), sites=dev_in.mesh.sites.copy(), areas=dev_in.mesh.areas.copy(),
+        currents=dict(kw["terminal_currents"]) if isinstance(kw.get("terminal_currents"), dict) else None,
+        layer=(dev_in.layer.london_lambda, dev_in.layer.coherence_length, dev_in.layer.thickness, dev_in.layer.gamma, dev_in.layer.u, dev_in.layer.z0),
+        save_every=opts.save_every, solve_time=opts.solve_time, dt_init=opts.dt_init,
+    )
+    sol = tdgl.solve(dev_in, opts, **kw)
+    changed = []
+    if not np.array_equal(before["film"], dev_in.film.points) or any(not np.array_equal(a, t.points) for a, t in zip(before["terms"], dev_in.terminals)) or any(
+        not np.array_equal(a, h.points) for a, h in zip(before["holes"], dev_in.holes)
+    ):
+        changed.append("polygons")
+    if not np.array_equal(before["sites"], dev_in.mesh.sites) or not np.array_equal(before["areas"], dev_in.mesh.areas):
+        changed.append("mesh")
+    if before["probes"] is not None and not np.array_equal(before["probes"], dev_in.probe_points):
+        changed.append("probe_points")
+    if before["currents"] is not None and dict(kw["terminal_currents"]) != before["currents"]:
+        changed.append("terminal_currents")
+    if before["layer"] != (dev_in.layer.london_lambda, dev_in.layer.coherence_length, dev_in.layer.thickness, dev_in.layer.gamma, dev_in.layer.u, dev_in.layer.z0):
+        changed.append("layer")
+    if (before["save_every"], before["solve_time"], before["dt_init"]) != (opts.save_every, opts.solve_time, opts.dt_init):
+        changed.append("options")
+    if changed:
+        res.violate("simulation-changes-its-inputs", what=",".join(changed), detail={"case": case})
     varied = ",".join(
         v for v, on in (("k", k != 1), ("temp", outp is None), ("probes", case["probes"] != 0), ("progress", case["prog"] != "never")) if on
     ) or "none"
